@@ -140,6 +140,9 @@ func visitNamespace(logger log.Logger, obj any, match stringMatcher) (bool, erro
 	}
 
 	var matched bool
+	// A blob that cannot be decoded cannot be translated, but it must not keep the rest of the message from being
+	// translated: the walk goes on and the first such error is reported at the end.
+	var blobErr error
 
 	// The visitor function can return Skip, Stop, or Continue to control recursion.
 	err := visit.Values(obj, func(vwp visit.ValueWithParent) (visit.Action, error) {
@@ -176,8 +179,8 @@ func visitNamespace(logger log.Logger, obj any, match stringMatcher) (bool, erro
 		} else if dataBlobFieldNames[fieldType.Name] {
 			changed, err := visitDataBlobs(logger, vwp, match, visitNamespace)
 			matched = matched || changed
-			if err != nil {
-				return visit.Stop, err
+			if err != nil && blobErr == nil {
+				blobErr = err
 			}
 		} else if namespaceFieldNames[fieldType.Name] {
 			name, ok := vwp.Interface().(string)
@@ -198,6 +201,9 @@ func visitNamespace(logger log.Logger, obj any, match stringMatcher) (bool, erro
 
 		return visit.Continue, nil
 	})
+	if err == nil {
+		err = blobErr
+	}
 	return matched, err
 }
 
@@ -206,6 +212,7 @@ func visitNamespace(logger log.Logger, obj any, match stringMatcher) (bool, erro
 // the provided match function.
 func visitSearchAttributes(logger log.Logger, obj any, match stringMatcher) (bool, error) {
 	var matched bool
+	var blobErr error // see visitNamespace
 
 	// The visitor function can return Skip, Stop, or Continue to control recursion.
 	err := visit.Values(obj, func(vwp visit.ValueWithParent) (visit.Action, error) {
@@ -221,8 +228,8 @@ func visitSearchAttributes(logger log.Logger, obj any, match stringMatcher) (boo
 		if dataBlobFieldNames[fieldType.Name] {
 			changed, err := visitDataBlobs(logger, vwp, match, visitSearchAttributes)
 			matched = matched || changed
-			if err != nil {
-				return visit.Stop, err
+			if err != nil && blobErr == nil {
+				blobErr = err
 			}
 		} else if searchAttributeFieldNames[fieldType.Name] {
 			// This could be *common.SearchAttributes, or it could be map[string]*common.Payload (indexed fields)
@@ -248,6 +255,9 @@ func visitSearchAttributes(logger log.Logger, obj any, match stringMatcher) (boo
 
 		return visit.Continue, nil
 	})
+	if err == nil {
+		err = blobErr
+	}
 	return matched, err
 }
 
@@ -285,15 +295,12 @@ func visitDataBlobs(logger log.Logger, vwp visit.ValueWithParent, match stringMa
 	switch evt := vwp.Interface().(type) {
 	case []*common.DataBlob:
 		newEvts, matched, changed, err := translateDataBlobs(logger, match, visitor, evt...)
-		if err != nil {
-			return matched, err
-		}
 		if matched || changed {
-			if err := visit.Assign(vwp, reflect.ValueOf(newEvts)); err != nil {
-				return matched, err
+			if aerr := visit.Assign(vwp, reflect.ValueOf(newEvts)); aerr != nil {
+				return matched, aerr
 			}
 		}
-		return matched, nil
+		return matched, err
 	case *common.DataBlob:
 		newEvt, matched, changed, err := translateOneDataBlob(logger, match, visitor, evt)
 		if err != nil {
@@ -316,11 +323,15 @@ func translateDataBlobs(logger log.Logger, match stringMatcher, visitor visitor,
 		anyChanged = anyChanged || changed
 		anyMatched = anyMatched || matched
 		if err != nil {
-			return blobs, anyMatched, anyChanged, err
+			// This blob stays as it is; the others are still translated. The first error is reported.
+			if retErr == nil {
+				retErr = err
+			}
+			continue
 		}
 		blobs[i] = newBlob
 	}
-	return blobs, anyMatched, anyChanged, nil
+	return blobs, anyMatched, anyChanged, retErr
 }
 
 func translateOneDataBlob(logger log.Logger, match stringMatcher, visitor visitor, blob *common.DataBlob) (result *common.DataBlob, matched, changed bool, retErr error) {
